@@ -1,0 +1,104 @@
+//go:build verif
+
+package rsync
+
+// Contracts for the rsync engine (properties C20, C19). Comment-only file:
+// compiled only under the "verif" build tag, contains no code. The "//@"
+// lines are read by /verif/govc.
+//
+// Ghost state describing what happened through the operation transmitter
+// handed to Deltify:
+//   txfailed     some call of the transmitter returned a non-nil error
+//   txafterfail  the transmitter was called again after it had failed
+//   txcalls      number of calls of the transmitter
+// and through a Receiver:
+//   rxfailed     some call of Receive returned a non-nil error
+
+//@ ghost txfailed bool
+//@ ghost txafterfail bool
+//@ ghost txcalls int
+//@ ghost rxfailed bool
+
+//@ iface OperationTransmitter
+//@   params o
+//@   modifies txfailed, txafterfail, txcalls
+//@   ensures txcalls == old(txcalls) + 1
+//@   ensures txfailed == (old(txfailed) || result != nil)
+//@   ensures txafterfail == (old(txafterfail) || old(txfailed))
+
+//@ iface Receiver.Receive
+//@   params self, t
+//@   modifies rxfailed
+//@   ensures rxfailed == (old(rxfailed) || result != nil)
+
+//@ iface Receiver.finalize
+//@   params self
+//@   pure
+
+//@ func (*Engine).transmitData
+//@   requires e != nil && e.operation != nil
+//@   requires !txfailed && !txafterfail
+//@   ensures[errprop] txfailed ==> result != nil
+//@   ensures[noafter] !txafterfail
+//@   ensures[once] txcalls == old(txcalls) + 1
+
+//@ func (*Engine).transmitBlock
+//@   requires e != nil && e.operation != nil
+//@   requires !txfailed && !txafterfail
+//@   ensures[errprop] txfailed ==> result != nil
+//@   ensures[noafter] !txafterfail
+//@   ensures[once] txcalls == old(txcalls) + 1
+
+//@ func (*Engine).chunkAndTransmitAll
+//@   requires e != nil && e.operation != nil
+//@   requires !txfailed && !txafterfail
+//@   ensures[errprop] txfailed ==> result != nil
+//@   ensures[noafter] !txafterfail
+//@   loop 1 invariant[errprop] !txfailed && !txafterfail && e.operation != nil
+
+// sendBlock
+//@ func (*Engine).Deltify$1
+//@   requires e != nil && e.operation != nil
+//@   requires !txfailed && !txafterfail
+//@   ensures[errprop] txfailed ==> result != nil
+//@   ensures[noafter] !txafterfail
+
+// sendData
+//@ func (*Engine).Deltify$2
+//@   requires e != nil && e.operation != nil
+//@   requires !txfailed && !txafterfail
+//@   ensures[errprop] txfailed ==> result != nil
+//@   ensures[noafter] !txafterfail
+//@   loop 1 invariant[errprop] !txfailed && !txafterfail && e.operation != nil
+
+//@ func (*Engine).Deltify
+//@   requires e != nil && e.operation != nil && base != nil
+//@   requires !txfailed && !txafterfail
+//@   ensures[errprop] txfailed ==> result != nil
+//@   ensures[noafter] !txafterfail
+//@   loop 1 invariant[errprop] !txfailed && !txafterfail && e.operation != nil
+//@   loop 2 invariant[errprop] !txfailed && !txafterfail && e.operation != nil
+//@   loop 3 invariant[errprop] !txfailed && !txafterfail && e.operation != nil
+
+// The per-file transmitter closure of Transmit: it reports exactly what the
+// receiver reported and records it in transmitError.
+//@ func Transmit$1
+//@   ensures[same] transmitError == result
+//@   ensures[rx] rxfailed == (old(rxfailed) || result != nil)
+
+//@ func NewEngine
+//@   fresh result
+//@   ensures result != nil && result.operation != nil
+
+// Transmit hands the closure Transmit$1 to Deltify. What Deltify's contract
+// says about "the transmitter" (txfailed) is linked to this closure's
+// bookkeeping by the assumption after the call: since the closure records
+// every result in transmitError (Transmit$1:same) and Deltify never calls the
+// transmitter again after a failure (Deltify:noafter), transmitError is
+// non-nil exactly if some call failed.
+//@ func Transmit
+//@   requires !rxfailed && !txfailed && !txafterfail
+//@   requires[sigs] forall k in 0..len(signatures) :: signatures[k] != nil
+//@   ensures[errprop] rxfailed ==> result != nil
+//@   at call (*Engine).Deltify#1 assume rxfailed == (transmitError != nil) && txfailed == (transmitError != nil) && !txafterfail
+//@   loop 1 invariant[errprop] !rxfailed && !txfailed && !txafterfail && engine != nil && engine.operation != nil
